@@ -8,6 +8,7 @@ package controller
 // The Controller is assembled exactly the way the repo's tests do it.
 
 import (
+	"strings"
 	"context"
 	"errors"
 	"fmt"
@@ -46,6 +47,8 @@ const (
 	tcEscAndForce        // both
 	tcForeign            // an unrelated taint
 	tcEscEmpty           // escalator taint with empty value
+	tcSibling            // a foreign taint whose key merely starts with escalator's key: the node is untainted for escalator
+	tcEscTwice           // escalator taint twice (NoSchedule, then a foreign taint, then NoExecute), decimal timestamps
 )
 
 type vNode struct {
@@ -76,6 +79,8 @@ type vPod struct {
 }
 
 type vWorld struct {
+	unreachable map[string]bool // nodes whose GET times out at the API server (every time)
+	escEffect v1.TaintEffect // effect carried by the escalator taints already on nodes ("" = NoSchedule)
 	memUnit int64 // when > 1: symbolic pod memory comes in multiples of this many bytes
 	podLists  int    // listings of all pods (one per group and scan)
 	onPodList func() // hook run at each of them
@@ -150,7 +155,9 @@ func (w *vWorld) addNode(g int, class int, cordoned bool, annot int, taintAge, c
 	}
 	o := w.groups[g]
 	n := &vNode{name: name, group: g, class: class, cordoned: cordoned, taintAge: taintAge, createAge: createAge, member: member}
-	n.instance = "i-" + name
+	// instance ids of one group are prefixes of one another (i-g0a, i-g0ab, i-g0abb, ...): ids must be
+	// compared whole, as AWS's mixed 8- and 17-digit ids demand
+	n.instance = "i-g" + strconv.Itoa(g) + "a" + strings.Repeat("b", idx)
 	n.taintTs = w.base - taintAge
 	obj := &v1.Node{}
 	obj.Name = name
@@ -177,7 +184,7 @@ func (w *vWorld) addNode(g int, class int, cordoned bool, annot int, taintAge, c
 		n.annotKey, n.annotated = true, true
 	}
 	esc := func(val string) v1.Taint {
-		return v1.Taint{Key: k8s.ToBeRemovedByAutoscalerKey, Value: val, Effect: v1.TaintEffectNoSchedule}
+		return v1.Taint{Key: k8s.ToBeRemovedByAutoscalerKey, Value: val, Effect: w.effectOnNodes()}
 	}
 	force := v1.Taint{Key: k8s.ToBeForceRemovedByAutoscalerKey, Value: "x", Effect: v1.TaintEffectNoSchedule}
 	switch class {
@@ -193,6 +200,12 @@ func (w *vWorld) addNode(g int, class int, cordoned bool, annot int, taintAge, c
 		obj.Spec.Taints = []v1.Taint{{Key: "example.com/other", Value: "1", Effect: v1.TaintEffectNoExecute}}
 	case tcEscEmpty:
 		obj.Spec.Taints = []v1.Taint{esc("")}
+	case tcSibling:
+		obj.Spec.Taints = []v1.Taint{{Key: k8s.ToBeRemovedByAutoscalerKey + "-reserved", Value: "team", Effect: v1.TaintEffectPreferNoSchedule}}
+	case tcEscTwice:
+		second := esc(fmt.Sprint(n.taintTs))
+		second.Effect = v1.TaintEffectNoExecute
+		obj.Spec.Taints = []v1.Taint{esc(fmt.Sprint(n.taintTs)), {Key: "example.com/other", Value: "1", Effect: v1.TaintEffectNoExecute}, second}
 	}
 	obj.Status.Allocatable = v1.ResourceList{
 		v1.ResourceCPU:    *resource.NewMilliQuantity(w.cpuPerNode, resource.DecimalSI),
@@ -312,6 +325,10 @@ func (w *vWorld) apiError(api, name string, typed *apierrors.StatusError) error 
 
 func (s *vNodes) Get(ctx context.Context, name string, opts metav1.GetOptions) (*v1.Node, error) {
 	c := aws.VerifCall{Kind: "NodeGet", Node: name}
+	if s.w.unreachable[name] {
+		s.w.J.Calls = append(s.w.J.Calls, c)
+		return nil, apierrors.NewServerTimeout(schema.GroupResource{Resource: "nodes"}, "get", 1)
+	}
 	if s.w.J.Fail("NodeGet") {
 		s.w.J.Calls = append(s.w.J.Calls, c)
 		return nil, s.w.apiError("NodeGet", name, apierrors.NewNotFound(schema.GroupResource{Resource: "nodes"}, name))
@@ -519,7 +536,7 @@ func (w *vWorld) retaint(n *vNode, class int, taintAge int64) {
 	n.taintTs = w.base - taintAge
 	obj := copyNode(n.obj)
 	obj.Spec.Taints = nil
-	esc := v1.Taint{Key: k8s.ToBeRemovedByAutoscalerKey, Value: fmt.Sprint(n.taintTs), Effect: v1.TaintEffectNoSchedule}
+	esc := v1.Taint{Key: k8s.ToBeRemovedByAutoscalerKey, Value: fmt.Sprint(n.taintTs), Effect: w.effectOnNodes()}
 	force := v1.Taint{Key: k8s.ToBeForceRemovedByAutoscalerKey, Value: "x", Effect: v1.TaintEffectNoSchedule}
 	switch class {
 	case tcEsc:
@@ -536,8 +553,21 @@ func (w *vWorld) retaint(n *vNode, class int, taintAge int64) {
 		obj.Spec.Taints = []v1.Taint{esc, force}
 	case tcForeign:
 		obj.Spec.Taints = []v1.Taint{{Key: "example.com/other", Value: "1", Effect: v1.TaintEffectNoExecute}}
+	case tcSibling:
+		obj.Spec.Taints = []v1.Taint{{Key: k8s.ToBeRemovedByAutoscalerKey + "-reserved", Value: "team", Effect: v1.TaintEffectPreferNoSchedule}}
+	case tcEscTwice:
+		second := esc
+		second.Effect = v1.TaintEffectNoExecute
+		obj.Spec.Taints = []v1.Taint{esc, {Key: "example.com/other", Value: "1", Effect: v1.TaintEffectNoExecute}, second}
 	}
 	n.obj = obj
+}
+
+func (w *vWorld) effectOnNodes() v1.TaintEffect {
+	if w.escEffect == "" {
+		return v1.TaintEffectNoSchedule
+	}
+	return w.escEffect
 }
 
 // movePod re-places a pod between scans.
@@ -561,6 +591,23 @@ func (w *vWorld) movePod(p *vPod, node int, daemon bool) {
 	if node >= 0 && !daemon && w.nodes[node].group == p.group {
 		w.nodes[node].groupPods++
 	}
+}
+
+// viaAffinity makes a pod select its group through required node affinity: one term whose first
+// requirement is about something else (a zone) and whose second names the group's label.
+func (w *vWorld) viaAffinity(p *vPod, on bool) {
+	if !on {
+		return
+	}
+	o := w.groups[p.group]
+	obj := *p.obj
+	obj.Spec.NodeSelector = nil
+	obj.Spec.Affinity = &v1.Affinity{NodeAffinity: &v1.NodeAffinity{RequiredDuringSchedulingIgnoredDuringExecution: &v1.NodeSelector{
+		NodeSelectorTerms: []v1.NodeSelectorTerm{{MatchExpressions: []v1.NodeSelectorRequirement{
+			{Key: "topology.kubernetes.io/zone", Operator: v1.NodeSelectorOpIn, Values: []string{"az"}},
+			{Key: o.LabelKey, Operator: v1.NodeSelectorOpIn, Values: []string{o.LabelValue}},
+		}}}}}}
+	p.obj = &obj
 }
 
 // garbageValue: what an unreadable escalator taint holds in this world -- anything that is
